@@ -2,6 +2,7 @@
 import json
 from . import api_common as ac
 from .. import apiuniverse as au
+from ..pool import run_cases
 
 CALLS = ['compile', 'compile_nv', 'update_var', 'update_edge', 'zero']
 
@@ -27,8 +28,44 @@ def run(ctx):
     ctx.notes['deviations_detected_by']['DerivedSharesEdgeDicts'] = ac.vacuity(ctx, ac.PAIR_CALLS, 'DerivedSharesEdgeDicts', maxlen=3)
     behs = [b for b in behs if any(c['a'] in ('update_var', 'update_edge', 'compile_nv') for c in b['calls'])]
     ac.judge_all(ctx, behs, 'compiled model after overrides', cap=2600 if ctx.tier == "quick" else 30000, always=pair)
+    shared_subcircuit(ctx)
     for b in behs[len(behs) // 2: len(behs) // 2 + 2]:
         ctx.sample(dict(calls=b['calls'], expected_units=b['expM'], dev=b['dev']))
+
+
+def _shared_sub_job(updates):
+    """one sub-circuit template object used under two names of a parent; overrides must reach the addressed place only"""
+    import numpy as np, warnings
+    warnings.filterwarnings('ignore')
+    from pyrates import OperatorTemplate, NodeTemplate, CircuitTemplate
+    op = OperatorTemplate('op', equations=["x' = -k*x"], variables={'x': 'output(1.0)', 'k': 2.0})
+    n = NodeTemplate('n', operators=[op])
+    sub = CircuitTemplate('sub', nodes={'a': n, 'b': n})
+    top = CircuitTemplate('top', circuits={'s1': sub, 's2': sub})
+    try:
+        for path, val in updates:
+            top.update_var(node_vars={path + '/op/k': np.array(val) if isinstance(val, list) else float(val)})
+        f, a, names, svm = top.get_run_func('vf', 1e-3, vectorize=False, verbose=False, clear=True, in_place=False, float_precision='float64')
+        dy = np.asarray(f(0, np.ones(4), *a[2:]), dtype='float64')
+        return {k.rsplit('/', 2)[0]: float(-dy[int(np.ravel(v)[0])]) for k, v in svm.items()}
+    except Exception as e:
+        return dict(exc=type(e).__name__, msg=str(e)[:200])
+
+
+def shared_subcircuit(ctx):
+    scen = [[('s1/a', 9)], [('s2/b', 7)], [('all/a', [11, 12])], [('s1/all', [5, 6])], [('s1/a', 9), ('s2/a', 4)], [('all/all', 3), ('s2/b', 8)]]
+    nodes = ['s1/a', 's1/b', 's2/a', 's2/b']
+    def matches(pat, node):
+        return all(p == 'all' or p == q for p, q in zip(pat.split('/'), node.split('/')))
+    for sc, o in zip(scen, run_cases(_shared_sub_job, scen, timeout=120)):
+        ctx.case(key=['shared-subcircuit', sc]); ctx.replayed += 1
+        exp = {nd: 2.0 for nd in nodes}
+        for pat, val in sc:
+            hit = [nd for nd in nodes if matches(pat, nd)]
+            for i, nd in enumerate(hit):
+                exp[nd] = float(val[i]) if isinstance(val, list) else float(val)
+        if o != exp:
+            ctx.violation(dict(kind='conformance', what='override through a path into a sub-circuit object that is used twice', case=sc, observed=o, expected=exp))
 
 
 def replay(ctx, rec):
